@@ -233,6 +233,17 @@ func body(s *simrt.Sim, tier string) {
 		log = append(log, fmt.Sprintf("[target given as %q] Write #%d {%s}: fault=%q crashed=%v err=%s", strings.ReplaceAll(given, root, "<root>"), i, render(fileSets[sets[i]]), h.fired, crashed, errText))
 		s.Logf("%s", log[len(log)-1])
 		check(fmt.Sprintf("after Write #%d", i))
+		if h.fired != "" && !crashed && err != nil && current != pending && !anyCrash && !freshInstance && !strings.Contains(h.fired, "(Remove") {
+			// a Write that failed and said so (no crash, nothing published): what it had begun - a version directory with
+			// some of the new files in it - is not the current version and must not stay behind
+			live, _ := os.Readlink(target)
+			ents, _ := os.ReadDir(filepath.Join(root, "base"))
+			for _, e := range ents {
+				if e.IsDir() && e.Name() != filepath.Base(live) {
+					s.Fail("failed-write-left-version-dir", fmt.Sprintf("Write #%d returned an error (%s) and left its unpublished version directory %s behind\n%s", i, errText, e.Name(), strings.Join(log, "\n")))
+				}
+			}
+		}
 		if h.fired != "" {
 			anyFault = true
 			faultsLeft--
